@@ -404,10 +404,12 @@ def no_narrow_bookkeeping(ctx, F, rule, sfx):
     with 256 corners is reachable: a generator ringed by 256 neighbours in its own plane)."""
     W = {'u8': 8, 'i8': 8, 'u16': 16, 'i16': 16, 'u32': 32, 'i32': 32, 'u64': 64, 'i64': 64, 'usize': 64, 'isize': 64, 'u128': 128, 'i128': 128}
     n = 0
+    nb = 0
     bad = []
     for b in F.bodies:
         if not (b.get('file') or '').startswith('src/voronoi') or 'convex_cell_alternative' in (b.get('file') or '') or '::tests::' in b['path']:
             continue
+        nb += 1
         for bl in b['blocks']:
             if bl.get('cleanup'):
                 continue
@@ -426,6 +428,7 @@ def no_narrow_bookkeeping(ctx, F, rule, sfx):
                         narrow_fields.append('%s.%s: %s' % (a['path'].split('::')[-1], f['name'], f['ty']))
     ctx.check(rule, 'bookkeeping-keeps-the-width-of-usize' + sfx, not bad and not narrow_fields, (bad[:2] + narrow_fields[:3]) or '%d integer casts in src/voronoi*, none narrowing a run-time value below 32 bits; no 8- or 16-bit field' % n,
               'no count, offset or index of the cell / its face table narrowed below 32 bits', 'src/voronoi/convex_cell.rs', key_extra='narrow')
+    ctx.floor(rule, 'bodies of the construction / assembly code scanned for narrowing' + sfx, nb, 100)
 
 
 def r7(ctx, F, rule, sfx):
